@@ -46,6 +46,16 @@ Theorem C06_synthesised_nonvacuous :
 Proof. vm_compute. split; reflexivity. Qed.
 Print Assumptions C06_synthesised_nonvacuous.
 
+(* explicit operationIds that are equal up to case and punctuation are NOT kept apart (open finding): the hypothesis of
+   C06_distinct is exactly what they lack *)
+Theorem C06_distinct_refuted_case_only :
+  exists id1 id2, id1 <> id2 /\ norm id1 = norm id2 /\ op_name_of_id id1 = op_name_of_id id2 /\
+                  op_file_name (op_name_of_id id1) = op_file_name (op_name_of_id id2).
+Proof.
+  exists (lit "getUser"), (lit "get_user"). split; [discriminate|]. vm_compute. repeat split; reflexivity.
+Qed.
+Print Assumptions C06_distinct_refuted_case_only.
+
 Theorem C06_nonvacuous :
   norm (lit "list-Pets") <> norm (lit "listPet") /\ norm (lit "get.pet") = norm (lit "GetPet") /\
   op_name_of_id (lit "users.list") = lit "UsersList" /\ op_file_name (lit "UsersList") = lit "users_list".
